@@ -24,6 +24,7 @@ DECIDES = (
     " hollow shapes (one tier, sketch without core) have an empty core and all operations in shell (part of C19.PARTITION); get_slice is a pure query - the stack's grids are unchanged and a second call returns the same (part of C19.SLICE-ROLES); a deleted operation stays deleted across clear()/backport() (C19.DELETE-SURVIVES = C12.CLEAR-COMPLETE)."
     ' Within each grid tier of a literal quad map consecutive faces share an edge - the tier is listed in angular order (C19.TIER-ORDER).'
     ' Mesh.delete records the operation also when its entity is added later (part of C19.DELETE-LOCAL).'
+    " grid / core / shell / operations of every shape class read only attributes that the constructors really run for that class create (C19.ADDRESSABLE); assemble() leaves the entities' own operation lists as they are, delete() twice is still deleted (parts of C19.DELETE-LOCAL)."
 )
 NOT_DECIDED = "that index i/j/k is still the geometric column/row/tier after arbitrary user transforms of the entities."
 ASSUMPTIONS = ["np.linspace(a, b, num=n) is modelled as n ordered symbolic coordinates"]
